@@ -600,10 +600,92 @@ func c06ExpiryVsSet(r *Run, variant int) {
 	}
 }
 
+
+// c06ReorderedCostDeltas: two Sets of one key with very different costs, each parked at hook H1
+// after its map phase (the shard map already holds the result), their events released in the
+// REVERSE order - what happens when the first caller is descheduled between its map update and
+// its event send. The sum of all true costs never exceeds MaxSize at any moment of any real-time
+// order of the two calls, so nothing may be evicted and every other key must stay readable.
+func c06ReorderedCostDeltas(r *Run, variant int) {
+	rng := r.Rng(int64(6600 + variant))
+	M := int64([]int{100, 200, 1000}[variant%3])
+	others := int(M) / 4 + rng.Intn(int(M)/8)      // resident unit-cost keys
+	big := M/2 + rng.Int63n(M/4)                   // others + big <= M
+	nl := &noteLog[int, int64]{}
+	c, err := theine.NewBuilder[int, int64](M).RemovalListener(nl.listener()).Build()
+	if err != nil {
+		r.Broken("build: %v", err)
+		return
+	}
+	defer c.Close()
+	st := c.VerifStore()
+	for k := 1; k <= others; k++ {
+		c.Set(k, int64(k), 1)
+	}
+	const key = 0
+	c.Set(key, 5000, 1)
+	c.Wait()
+	script := []string{fmt.Sprintf("MaxSize %d: %d keys of cost 1 and key %d of cost 1 resident (total %d)", M, others, key, others+1)}
+	p := newParker(internal.VPBeforeEvent)
+	defer p.close()
+	ctlA, doneA := p.goParked("A", func() { c.Set(key, 5001, big) })
+	if _, parked, err := waitParkedOrDone(ctlA, doneA); err != nil || !parked {
+		r.Inconclusive(1)
+		return
+	}
+	script = append(script, fmt.Sprintf("A: Set(key, cost %d) parked after its map phase (delta +%d not sent yet)", big, big-1))
+	ctlB, doneB := p.goParked("B", func() { c.Set(key, 5002, 1) })
+	if _, parked, err := waitParkedOrDone(ctlB, doneB); err != nil || !parked {
+		r.Inconclusive(1)
+		ctlA.release <- struct{}{}
+		<-doneA
+		return
+	}
+	script = append(script, fmt.Sprintf("B: Set(key, cost 1) parked after its map phase (delta -%d not sent yet); true total is %d again", big-1, others+1))
+	ctlB.release <- struct{}{}
+	<-doneB
+	c.Wait()
+	mid := st.VerifPolicyPeekUnlocked()
+	script = append(script, fmt.Sprintf("B's event applied first: policy total %d, resident %d", mid["weighted_size"], c.Len()))
+	ctlA.release <- struct{}{}
+	<-doneA
+	c.Wait()
+	script = append(script, fmt.Sprintf("A's event applied: policy total %d, resident %d", st.VerifPolicyPeekUnlocked()["weighted_size"], c.Len()))
+	wit := map[string]any{"script": script, "variant": variant, "maxsize": M, "peak_true_total": int64(others) + big}
+	evicted := 0
+	for _, n := range nl.snapshot() {
+		if n.Reason == theine.EVICTED {
+			evicted++
+		}
+	}
+	missing := 0
+	for k := 1; k <= others; k++ {
+		if _, ok := c.Get(k); !ok {
+			missing++
+		}
+	}
+	if evicted > 0 || missing > 0 {
+		r.Violate("evicted-below-capacity/cost-deltas-applied-in-reverse-order",
+			fmt.Sprintf("%d entries were reported EVICTED and %d of %d untouched keys are gone although the total cost never exceeded %d of MaxSize %d; script: %v", evicted, missing, others, int64(others)+big, M, script), wit)
+	}
+	for _, is := range checkQuiescent(st.VerifSnapshot(), c.EstimatedSize(), true) {
+		r.Violate(is.Key+"/cost-deltas-applied-in-reverse-order", is.What+fmt.Sprintf("; script: %v", script), wit)
+	}
+	r.Eval(1)
+	r.Count("reordered_cost_delta_scenarios", 1)
+	r.Distinct(fmt.Sprintf("reordered-cost-deltas/M%d", M))
+	if variant == 0 {
+		r.Sample(10, map[string]any{"reordered_cost_deltas": script})
+	}
+}
+
 func runC06(r *Run) {
 	defer func() {
 		for i := 0; i < r.Pick(2, 8); i++ {
 			c06ExpiryVsSet(r, r.Shard*8+i)
+		}
+		for i := 0; i < r.Pick(3, 12); i++ {
+			c06ReorderedCostDeltas(r, r.Shard*12+i)
 		}
 	}()
 	r.Rule("case = one sequential operation sequence (Set / SetWithTTL / Delete / loading Get / virtual-time step / tick / probe; costs 1..room and deliberately oversize; doorkeeper on/off; cost function on/off; plain and loading) checked step by step against a reference model whose occupancy never exceeds MaxSize. " +
